@@ -152,6 +152,15 @@ class MergeSem(Sem):
                 out |= env.get(n.id, frozenset())
         return frozenset(out)
 
+    def _order_preserving(self, vn):
+        """a selection of rows of the frame itself (frame[mask], frame.loc[...], frame.iloc[...]) keeps the order it had"""
+        if isinstance(vn, ast.Subscript):
+            b = vn.value
+            if isinstance(b, ast.Attribute) and b.attr in ("loc", "iloc"):
+                b = b.value
+            return dotted(b) == f"self.{self.frame}"
+        return False
+
     def _order(self, e, state):
         """within one list/concatenation expression the old rows come before the buffered ones"""
         for n in ast.walk(e):
@@ -211,7 +220,8 @@ class MergeSem(Sem):
                 d = dotted(t)
                 if d == f"self.{self.frame}":
                     fr = (fr | v) if aug else v
-                    unsorted = indexed is True and not (isinstance(vn, ast.Call) and isinstance(vn.func, ast.Attribute) and vn.func.attr == "sort_index")
+                    if not self._order_preserving(vn):
+                        unsorted = indexed is True and not (isinstance(vn, ast.Call) and isinstance(vn.func, ast.Attribute) and vn.func.attr == "sort_index")
                 elif d == f"self.{self.buf}":
                     b = "cleared" if isinstance(vn, ast.List) and not vn.elts and not aug else "mixed"
                 else:
@@ -562,6 +572,7 @@ SEEDS = [
     Seed("commit-concat-order", "fault", MOD, "np.concatenate([self._df.values] + [y.reshape(1, -1) for y in self.buffer])", "np.concatenate([y.reshape(1, -1) for y in self.buffer] + [self._df.values])", rule="C19-R6"),
     Seed("commit-unindexed-drops-old", "fault", MOD, "np.concatenate([self._df.values] + [y.reshape(1, -1) for y in self.buffer])", "np.concatenate([y.reshape(1, -1) for y in self.buffer])", rule="C19-R6"),
     Seed("commit-indexed-unsorted", "fault", MOD, "            self._df.sort_index(inplace=True)\n        else:", "        else:", rule="C19-R6"),
+    Seed("refactor-commit-filter-after-sort", "refactor", MOD, "            self._df.sort_index(inplace=True)\n        else:", "            self._df.sort_index(inplace=True)\n            self._df = self._df[~self._df.index.duplicated(keep='last')]\n        else:"),
     Seed("refactor-commit-sort-assign", "refactor", MOD, "            self._df.sort_index(inplace=True)\n        else:", "            self._df = self._df.sort_index()\n        else:"),
     Seed("insert-prepends", "fault", MOD, "        self.buffer.append(y)", "        self.buffer.insert(0, y)", rule="C19-R6"),
     Seed("insert-skips-when-indexed", "fault", MOD, "        self.buffer.append(y)", "        if self.idx_cols is not None and len(self.buffer) > 1024:\n            return\n        self.buffer.append(y)", rule="C19-R6"),
